@@ -93,6 +93,7 @@ type c23Cfg struct {
 	inflightP    float64
 	slowP        float64
 	emptyByReset bool
+	transitions  bool // directed: setLimits transitions while Gets are parked in the memory throttle
 	metrics      bool // a goroutine calls sendMetrics (normalizes and reports the runtime info)
 	// directed scenario: loads of giantKey report giantBytes of in-flight data at once (a single
 	// ClickHouse block larger than the whole memory limit); no other traffic
@@ -206,6 +207,8 @@ type c23Env struct {
 
 	rmu      sync.Mutex
 	retained []*c23Retained
+
+	lastTransition atomic.Value // string: the setLimits sequence the transition script applied last
 }
 
 // A result returned by Get belongs to the caller: it must not change after the call returned,
@@ -700,8 +703,14 @@ func (e *c23Env) progressMonitor(stop *atomic.Bool, wg *sync.WaitGroup) {
 				break
 			}
 		}
+		if n := c23ParkedInThrottle(string(buf)); n > 0 && e.inCallback.Load() == 0 {
+			where = "get-parked-in-memory-throttle"
+			if e.cfg.transitions {
+				where = "waiter-not-woken-by-setLimits"
+			}
+		}
 		e.cache.mu.Lock()
-		st := map[string]any{"limits": fmt.Sprintf("%+v", e.cache.limits), "size": e.cache.info.size(), "inflightBytes": e.cache.inflightBytes, "inflightReqs": len(e.cache.inflightReqM)}
+		st := map[string]any{"last_setLimits": e.lastTransition.Load(), "limits": fmt.Sprintf("%+v", e.cache.limits), "size": e.cache.info.size(), "inflightBytes": e.cache.inflightBytes, "inflightReqs": len(e.cache.inflightReqM)}
 		e.cache.mu.Unlock()
 		g := stuck[0]
 		e.r.Violation("C23/progress/get-hung/"+where, "a Get is still blocked 30 s after the storage side went idle",
@@ -1105,6 +1114,139 @@ func (e *c23Env) worker(widx int, rnd *rand.Rand) {
 	}
 }
 
+// number of goroutines parked in tryNotExceedMemoryHardLimit's allocCond.Wait (goroutine dump)
+func c23ParkedInThrottle(dump string) int {
+	n := 0
+	for _, g := range strings.Split(dump, "\n\n") {
+		if strings.Contains(g, "(*cache2).tryNotExceedMemoryHardLimit(") && strings.Contains(strings.SplitN(g, "\n", 2)[0], "sync.Cond.Wait") {
+			n++
+		}
+	}
+	return n
+}
+
+// scriptGet issues one plain Get in its own goroutine with the same bookkeeping and judging as a worker
+func (e *c23Env) scriptGet(key int32, win *c23StepWin, fromIdx, n int, tag string) <-chan error {
+	g := &c23Get{id: e.getSeq.Add(1), key: key, win: win, fromIdx: fromIdx, n: n}
+	h := &requestHandler{Handler: e.H, accessInfo: accessInfo{user: "script"}}
+	q := &queryBuilder{metric: &format.MetricMetaValue{MetricID: key}, user: "u"}
+	lod := data_model.LOD{Version: Version6, StepSec: win.step, FromSec: win.slots[fromIdx], ToSec: e.slotEnd(win.step, win.slots[fromIdx+n-1]), Location: e.cfg.loc}
+	done := make(chan error, 1)
+	g.callWall = time.Now().UnixNano()
+	e.omu.Lock()
+	e.outstanding[g.id] = g
+	e.omu.Unlock()
+	g.called = e.event('G', win.step, lod.FromSec, lod.ToSec, key)
+	go func() {
+		res, err := e.cache.Get(context.Background(), h, q, lod, false)
+		ret := e.event('g', win.step, lod.FromSec, lod.ToSec, key)
+		e.omu.Lock()
+		delete(e.outstanding, g.id)
+		e.omu.Unlock()
+		e.st.Count("gets", 1)
+		if err == nil {
+			e.st.Count("gets.success", 1)
+			v := e.judge(g, res, ret)
+			e.st.Count("slots.checked", int64(v.slots))
+			e.st.Case(tag != "", fmt.Sprintf("%s|%s|%d|%d|%d|h%d f%d", e.cfg.name, tag, key, fromIdx, n, c23Bucket(v.hits), c23Bucket(v.fresh)))
+			e.st.Shape("script|" + tag + "|" + v.shape)
+		} else {
+			e.st.Count("gets.error.other", 1)
+		}
+		done <- err
+	}()
+	return done
+}
+
+// transitionScript: the limit is changed while requests sit in the memory throttle.  The trim
+// goroutine is held back (the script owns the shard mutexes it needs) so that the cache stays
+// above a tiny hard limit and Gets park in tryNotExceedMemoryHardLimit; then the limits are
+// switched (to none / to a large one / to another tiny one ...) and the shards are released.
+// Every parked Get must come back; the progress monitor decides.
+func (e *c23Env) transitionScript(rnd *rand.Rand) {
+	c := e.cache
+	win := &e.wins[0]
+	MB := 1 << 20
+	type variant struct {
+		name string
+		seq  []cache2Limits
+	}
+	variants := []variant{
+		{"tiny->none", []cache2Limits{{}}},
+		{"tiny->large", []cache2Limits{{maxSize: 64 * MB}}},
+		{"tiny->negative(none)", []cache2Limits{{maxSize: -1}}},
+		{"tiny->tiny2", []cache2Limits{{maxSize: 64}}},
+		{"tiny->none->tiny", []cache2Limits{{}, {maxSize: 32}}},
+		{"tiny->tiny2->none", []cache2Limits{{maxSize: 48}, {}}},
+		{"tiny->maxAge-only", []cache2Limits{{maxAge: time.Hour}}},
+	}
+	var shards []*cache2Shard
+	for _, sh := range c.shards {
+		shards = append(shards, sh)
+	}
+	sort.Slice(shards, func(i, j int) bool { return shards[i].step < shards[j].step })
+	key := int32(100)
+	for rep := 0; rep < e.cfg.gets && !e.hung.Load(); rep++ {
+		select {
+		case <-e.abort:
+			return
+		default:
+		}
+		v := variants[rep%len(variants)]
+		c.setLimits(cache2Limits{maxSize: 64 * MB})
+		for k := 0; k < 2; k++ { // something in the cache, loaders finished
+			key++
+			<-e.scriptGet(key, win, rnd.IntN(len(win.slots)-30), 30, "")
+		}
+		for dl := time.Now().Add(20 * time.Second); e.pendingLoads.Load() != 0 && time.Now().Before(dl); {
+			time.Sleep(200 * time.Microsecond)
+		}
+		if ri := c.runtimeInfo(); ri.size() <= 0 {
+			e.st.Count("transitions.skipped-cache-empty", 1)
+			continue
+		}
+		for _, sh := range shards { // hold the trimmer back
+			sh.mu.Lock()
+		}
+		c.setLimits(cache2Limits{maxSize: 32})
+		K := 1 + rep%4
+		var dones []<-chan error
+		for k := 0; k < K; k++ {
+			key++
+			dones = append(dones, e.scriptGet(key, win, rnd.IntN(len(win.slots)-10), 10, v.name))
+		}
+		parked := 0
+		buf := make([]byte, 4<<20)
+		for dl := time.Now().Add(20 * time.Second); parked < K && time.Now().Before(dl); time.Sleep(time.Millisecond) {
+			parked = c23ParkedInThrottle(string(buf[:runtime.Stack(buf, true)]))
+		}
+		if parked < K {
+			e.st.Count("transitions.waiters-not-observed", 1)
+		} else {
+			e.st.Count("transitions.with-parked-waiters/"+v.name, 1)
+			e.st.Count("transitions.parked-waiters", int64(parked))
+		}
+		e.lastTransition.Store(v.name)
+		for _, lim := range v.seq {
+			e.event('S', 0, 0, 0, 0)
+			c.setLimits(lim)
+			e.st.Count("setLimits", 1)
+			runtime.Gosched()
+		}
+		for i := len(shards) - 1; i >= 0; i-- {
+			shards[i].mu.Unlock()
+		}
+		for _, d := range dones {
+			select {
+			case <-d:
+			case <-e.abort:
+				return
+			}
+		}
+		e.touch()
+	}
+}
+
 func (e *c23Env) buildWindows(now int64) {
 	cfg := &e.cfg
 	for _, step := range cfg.steps {
@@ -1206,7 +1348,11 @@ func c23Round(r *verifkit.Run, st *c23Stats, cfg c23Cfg) {
 	}
 	mon.Add(1)
 	go e.progressMonitor(&stopMon, &mon)
-	for i := 0; i < cfg.workers; i++ {
+	e.lastTransition.Store("")
+	if cfg.transitions {
+		e.transitionScript(r.Rand(cfg.name + "/script"))
+	}
+	for i := 0; i < cfg.workers && !cfg.transitions; i++ {
 		workers.Add(1)
 		go func(i int) {
 			defer workers.Done()
@@ -1334,6 +1480,7 @@ func c23Profiles() []c23Cfg {
 		{name: "concurrent-invalidators", loc: utc, steps: []int64{1, 15, 60}, anchorAgo: 3600, workers: 48, keys: 5, invalidators: 3, emptyByReset: true},
 		{name: "inflight", loc: utc, steps: []int64{1, 60}, anchorAgo: 1800, workers: 48, keys: 3, invalidators: 1, inflightP: 0.7, limits: []cache2Limits{{maxSize: 4 * MB}, {maxSize: 600 << 10}, {}, {maxSize: 64 << 10}}, failP: 0.01},
 		{name: "lone-giant-inflight", loc: utc, steps: []int64{1}, anchorAgo: 3600, workers: 1, keys: 2, giantKey: 9, giantBytes: 64 * int64(MB), limits: []cache2Limits{{maxSize: 1 * MB}}, emptyByReset: true},
+		{name: "limit-transitions", transitions: true, loc: utc, steps: []int64{1}, anchorAgo: 3600, workers: 1, keys: 1},
 		{name: "many-goroutines", loc: msk, utcOffset: mskOff, steps: []int64{1, 300, 14400}, anchorAgo: 30, workers: 128, keys: 4, invalidators: 1, limits: []cache2Limits{{maxSize: 3 * MB, maxAge: 50 * time.Millisecond}, {}}, resetter: true, inflightP: 0.2, failP: 0.02, slowP: 0.03, emptyByReset: true},
 	}
 }
@@ -1351,12 +1498,15 @@ func c23Rounds(r *verifkit.Run) []c23Cfg {
 		if p.giantKey != 0 {
 			p.gets = 6
 		}
+		if p.transitions {
+			p.gets = r.N(21, 140) // repetitions of the script
+		}
 		spent += p.gets * p.workers
 		cfgs = append(cfgs, p)
 	}
 	for i := 0; spent < totalGets; i++ {
 		p := profiles[rnd.IntN(len(profiles))]
-		if p.giantKey != 0 {
+		if p.giantKey != 0 || p.transitions {
 			continue
 		}
 		p.name = fmt.Sprintf("%s#%d", p.name, i)
